@@ -14,7 +14,7 @@ BUILTINS = {'len', 'int', 'str', 'bool', 'min', 'max', 'sum', 'abs', 'list', 'tu
 SPEC_BUILTINS = {'forall', 'exists', 'implies', 'iff', 'old', 'ite', 'seq_get', 'subset', 'setof', 'distinct', 'is_prefix',
                  'is_none', 'some', 'emptyset', 'set_add', 'set_remove', 'seq_take', 'seq_drop', 'index_of', 'card',
                  'str_len', 'str_at', 'str_contains', 'str_indexof', 'str_prefixof', 'str_suffixof', 'str_sub',
-                 'str_replace_first', 'domain', 'map_get', 'unchanged', 'map_same_except', 'heap_same', 'heap_same_except', 'map_same', 'in_re', 'int_to_str', 'str_to_int', 'str_lt', 'str_le'}
+                 'str_replace_first', 'domain', 'map_get', 'unchanged', 'map_same_except', 'heap_same', 'heap_same_except', 'map_same', 'okey', 'opos', 'oval', 'osame', 'oprefix', 'in_re', 'int_to_str', 'str_to_int', 'str_lt', 'str_le'}
 
 def _len_term(ex, v):
     ty = v.ty
@@ -22,6 +22,7 @@ def _len_term(ex, v):
     if isinstance(ty, TSeq): return v.t[0]
     if isinstance(ty, TSet): return v.t[1]
     if isinstance(ty, TMap): return v.t[2]
+    if isinstance(ty, TOMap): return v.t[0]
     if isinstance(ty, TTuple): return z3.IntVal(len(v.t))
     if isinstance(ty, TRec): return z3.IntVal(len(ty.fields))
     if isinstance(ty, TRef) and ty.universal:
@@ -71,6 +72,7 @@ def call_builtin(ex, name, args, kwargs, node):
         if isinstance(a.ty, (TSeq, TTuple)): return a
         if isinstance(a.ty, TRec): return V(TTuple([t for _, t in a.ty.fields]), [a.t[f] for f, _ in a.ty.fields])
         if isinstance(a.ty, TSet): return _seq_of_set(ex, a)
+        if isinstance(a.ty, TOMap): return ex.materialize(ex.iter_of(a))
         raise Unsupported('%s(%r)' % (name, a.ty))
     if name in ('set', 'frozenset'):
         if not args:
@@ -328,6 +330,9 @@ def call_method_builtin(ex, bm, args, kwargs, node):
         for k, v in kwargs.items(): vals[k] = coerce(ex.val(v), ty.fty(k))
         return V(ty, vals)
     if ty is TStr: return _str_method(ex, recv, name, args, kwargs)
+    if ty is TBytes and name == 'decode':
+        ex.vf.note_assumption('bytes.decode() modelled as the identity on code points (exact for ASCII text)')
+        return V(TStr, recv.t)
     if isinstance(ty, TTuple) and not recv.t and name in E.MUTATING:
         # empty untyped collection literal: type from the first mutation
         if name == 'append':
@@ -338,6 +343,7 @@ def call_method_builtin(ex, bm, args, kwargs, node):
     if isinstance(ty, (TSeq, TTuple)): return _seq_method(ex, bm, recv, name, args, kwargs)
     if isinstance(ty, TSet): return _set_method(ex, bm, recv, name, args, kwargs)
     if isinstance(ty, TMap): return _map_method(ex, bm, recv, name, args, kwargs)
+    if isinstance(ty, TOMap): return _omap_method(ex, bm, recv, name, args, kwargs)
     raise Unsupported('method %s on %r' % (name, ty))
 
 def _str_method(ex, s, name, args, kwargs):
@@ -365,6 +371,9 @@ def _str_method(ex, s, name, args, kwargs):
             for x in a.t[1:]: r = z3.Concat(r, t, x.t)
             return V(TStr, r)
         return V(TStr, ex.vf.str_join(ex, t, a))
+    if name == 'encode' and not args:
+        ex.vf.note_assumption('str.encode() modelled as the identity on code points (exact for ASCII text)')
+        return V(TBytes, t)
     if name in ('lower', 'upper', 'strip', 'lstrip', 'rstrip', 'title', 'casefold', 'format', 'encode', 'decode', 'isalnum', 'isdigit', 'isdecimal', 'split', 'rsplit', 'partition', 'rpartition', 'zfill', 'isidentifier', 'isascii', 'isprintable', 'hex'):
         return ex.vf.str_lib(ex, s, name, args, kwargs)
     raise Unsupported('str.%s' % name)
@@ -425,8 +434,45 @@ def _set_method(ex, bm, recv, name, args, kwargs):
     if name == 'issubset': return vbool(z3.IsSubset(mem, args[0].t[0]))
     raise Unsupported('set.%s' % name)
 
+def omap_pop(ex, recv, kt):
+    n, ks, pos, val = recv.t
+    p = z3.Select(pos, kt)
+    i = fresh('pi', z3.IntSort()); x = fresh('px', sort_of(recv.ty.k))
+    ks2 = z3.Lambda([i], z3.If(i < p, z3.Select(ks, i), z3.Select(ks, i + 1)))
+    pos2 = z3.Lambda([x], z3.If(x == kt, z3.IntVal(-1), z3.If(z3.Select(pos, x) > p, z3.Select(pos, x) - 1, z3.Select(pos, x))))
+    return V(recv.ty, (n - 1, ks2, pos2, val))
+
+def _omap_method(ex, bm, recv, name, args, kwargs):
+    ty = recv.ty; n, ks, pos, val = recv.t
+    if name in ('values', 'keys', 'items'):
+        if name == 'keys': return E.IterV(n, lambda i: unpack(z3.Select(ks, i), ty.k), ty.k)
+        if name == 'values': return E.IterV(n, lambda i: unpack(z3.Select(val, z3.Select(ks, i)), ty.v), ty.v)
+        def item(i):
+            k = unpack(z3.Select(ks, i), ty.k); return V(TTuple([ty.k, ty.v]), [k, unpack(z3.Select(val, pack(k)), ty.v)])
+        return E.IterV(n, item)
+    if name == 'get':
+        kt = pack(ex.co(args[0], ty.k)); dflt = args[1] if len(args) > 1 else NONE
+        return vite(T.omap_member(recv, kt), unpack(z3.Select(val, kt), ty.v), ex.val(dflt))
+    if name == 'pop':
+        kt = pack(ex.co(args[0], ty.k)); mem = T.omap_member(recv, kt)
+        if len(args) == 1:
+            if ex.branch(z3.Not(mem), exceptional=True): ex.raise_exc('KeyError')
+            r = unpack(z3.Select(val, kt), ty.v)
+            ex.assign(bm.recv_node, omap_pop(ex, recv, kt)); return r
+        r = vite(mem, unpack(z3.Select(val, kt), ty.v), args[1])
+        if ex.branch(mem): ex.assign(bm.recv_node, omap_pop(ex, recv, kt))
+        return r
+    if name == 'copy': return recv
+    if name == 'clear':
+        ex.assign(bm.recv_node, coerce(V(TTuple([]), []), ty)); return NONE
+    raise Unsupported('dict.%s on ordered map' % name)
+
 def setitem(ex, recv, k, v):
     ty = recv.ty
+    if isinstance(ty, TOMap):
+        kt = pack(ex.co(k, ty.k)); n, ks, pos, val = recv.t
+        mem = T.omap_member(recv, kt)
+        return V(ty, (n + z3.If(mem, 0, 1), z3.If(mem, ks, z3.Store(ks, n, kt)), z3.If(mem, pos, z3.Store(pos, kt, n)), z3.Store(val, kt, pack(ex.co(v, ty.v)))))
     if isinstance(ty, TMap):
         kt = pack(coerce(k, ty.k)); dom, val, card = recv.t
         return V(ty, (z3.Store(dom, kt, True), z3.Store(val, kt, pack(coerce(v, ty.v))), card + z3.If(z3.Select(dom, kt), 0, 1)))
@@ -438,6 +484,10 @@ def setitem(ex, recv, k, v):
 
 def map_del(ex, recv, k, strict):
     ty = recv.ty
+    if isinstance(ty, TOMap):
+        kt = pack(ex.co(k, ty.k))
+        if strict and ex.branch(z3.Not(T.omap_member(recv, kt)), exceptional=True): ex.raise_exc('KeyError')
+        return omap_pop(ex, recv, kt)
     if not isinstance(ty, TMap): raise Unsupported('del on %r' % ty)
     kt = pack(coerce(k, ty.k)); dom, val, card = recv.t
     if strict and ex.branch(z3.Not(z3.Select(dom, kt)), exceptional=True): ex.raise_exc('KeyError')
@@ -539,6 +589,14 @@ def call_spec(ex, name, args, kwargs, node):
         m, k = a; return unpack(z3.Select(m.t[1], pack(coerce(k, m.ty.k))), m.ty.v)
     if name == 'seq_get':
         return seq_get(a[0], coerce(a[1], TInt).t)
+    # ---- ordered maps
+    if name == 'okey': return unpack(z3.Select(a[0].t[1], coerce(a[1], TInt).t), a[0].ty.k)
+    if name == 'opos': return vint(z3.Select(a[0].t[2], pack(ex.co(a[1], a[0].ty.k))))
+    if name == 'oval': return unpack(z3.Select(a[0].t[3], pack(ex.co(a[1], a[0].ty.k))), a[0].ty.v)
+    if name == 'osame': return vbool(z3.And(*[x == y for x, y in zip(a[0].t, a[1].t)]))
+    if name == 'oprefix':
+        m1, m0, n = a; n = coerce(n, TInt).t; j = fresh('qj', z3.IntSort())
+        return vbool(z3.ForAll([j], z3.Implies(z3.And(j >= 0, j < n), z3.And(m1.t[1][j] == m0.t[1][j], m1.t[3][m0.t[1][j]] == m0.t[3][m0.t[1][j]]))))
     # ---- quantifier-free frame conditions (array store form)
     if name == 'map_same_except':
         m1, m0, k = a; kt = pack(ex.co(k, m1.ty.k))
